@@ -18,6 +18,20 @@ and "inner future destroyed" in `Drop for CoalesceFuture`. The following `arrive
 future to the poller. The call of c is still in flight then, so c2 must coalesce onto it (model: the arrival takes
 place before the drop; c2 is then failed with leader_cancelled); monitor c11-drop-overlap. (Genuine defect found with it and repaired in /repo: notes/strengthen-C11.md, known_findings.json.)
 
+`manual herd threads=N rounds=R [keys=M] [gate=none|clone|hash] [ballast=0|1] [out=ok|err|mix]`: real-OS-thread SEARCH
+(not a proof) for executions in which the election of a key's leader is not atomic. A separate, freshly built instance;
+per round N threads are released together from a start line and each does `svc.clone().call(req)` for key 1 + t mod M;
+the inner calls stay pending until every thread has returned from `call()`, then finish, and every thread polls its own
+future to completion. Oracles = the property's clauses: per key exactly one inner call started / in flight, every
+request of the key receives that call's result. `gate=` makes the threads meet INSIDE `call()` through the key type's
+`Clone` (just before the look-up) or `Hash` (inside the look-up; a timed rendezvous, so code that does the look-up under
+an exclusive lock merely loses 3 ms per round; code whose look-up admits several threads at once is driven into the
+schedule deterministically). The model assumes what this searches a counter-example to: one `Service::call` is one
+atomic step (theorem simultaneous_arrivals_one_leader: any order of the arrivals, one leader). Compared line
+`herd rounds= calls= inner= shared= anomalies=`; monitor c11-simultaneous-arrivals relays `#herd-fail` (first violating
+round: threads, keys, number of inner calls in flight together, what each thread received, a one-line replay).
+(seeded/C11-w3m2; notes/strengthen-C11-w3m2.md)
+
 Meta lines of the harness used by the monitors (never compared with the model):
   #arrive c key   adapter, just before `Service::call` (a leader's `inner_call` follows at once)
   #fp c t         first poll of caller c
@@ -26,6 +40,8 @@ Meta lines of the harness used by the monitors (never compared with the model):
   #drop c t       the caller's future is dropped
   #dropsvc        adapter, `manual dropsvc` dropped the service handle
   #ondrop c c2    adapter, inside the destructor of leader c's unfinished inner future: request c2 arrives now
+  #herd …         adapter, configuration / wall time / rendezvous statistics of a `manual herd` run
+  #herd-fail …    adapter, first violating round of a `manual herd` run, in full
 """
 import os
 from gen.util import kvs, tparse, pick_outcome
@@ -81,7 +97,46 @@ class _Sim:
                 self._retire(c)
 
 
+# real-thread search for non-atomic leader election (`manual herd`): share of the cases, and rounds per run by
+# (gate, threads) — budget about 0.05 s (quick) / 0.15 s (thorough) of wall time per run on the reference machine
+# (2 threads: 7 us per round, 4: 15 us, 8: 100-250 us; gate=hash on conforming code: one 3 ms time-out per round).
+# The runs of all harness processes are serialised (flock), so their sum is what they add to the wall time of the check.
+HERD_P = {"quick": 0.02, "thorough": 0.006}
+HERD_SCALE = {"quick": 1, "thorough": 4}
+
+
+def gen_herd(rng, tier):
+    scale = HERD_SCALE.get(tier, 1)
+    r = rng.random()
+    gate = "hash" if r < 0.35 else "clone" if r < 0.70 else "none"
+    if gate == "hash":
+        threads = rng.choice([2, 2, 2, 3, 4, 8])
+        rounds = rng.choice([4, 8, 12, 20]) * min(scale, 2)
+    else:
+        threads = rng.choice([2, 2, 3, 4, 4, 8, 8, 16])
+        rounds = {2: 6000, 3: 4000, 4: 3000, 8: 400, 16: 100}[threads] * rng.choice([1, 2]) * scale // 2
+    keys = 1 if rng.random() < 0.6 else rng.randint(1, threads)
+    op = "manual herd threads=%d rounds=%d" % (threads, rounds)
+    if keys != 1 or rng.random() < 0.2:
+        op += " keys=%d" % keys
+    op += " gate=%s" % gate
+    if gate != "hash" and rng.random() < 0.3:
+        op += " ballast=0"            # an empty map (with gate=hash nothing is hashed during the look-up then)
+    out = rng.choice(["ok", "ok", "err", "mix"])
+    if out != "ok":
+        op += " out=%s" % out
+    ops = []
+    if rng.random() < 0.3:             # ordinary requests around it: the herd instance is a separate one
+        ops += ["arrive 1 key=1 inner=5:ok", "arrive 2 key=1 inner=0:ok", "poll 2"]
+    ops.append(op)
+    if ops[0] != op or rng.random() < 0.2:
+        ops += ["arrive 3 key=1 inner=0:ok", "adv 5", "settle"]
+    return {"header": "coalesce", "ops": ops}
+
+
 def gen(rng, tier):
+    if rng.random() < HERD_P.get(tier, 0.02) and os.environ.get("VERIF_C11_HERD", "1") != "0":
+        return gen_herd(rng, tier)
     nkeys = rng.choice([1, 1, 2, 2, 3])
     ncall = rng.randint(2, 8) if rng.random() < 0.85 else rng.randint(1, 12)
     ops = []
@@ -361,6 +416,17 @@ def mon_drop_overlap(case, lines, meta):
     return None
 
 
+def mon_herd(case, lines, meta):
+    """Real-thread search (`manual herd`): in every round all N requests of a key were inside `Service::call` while
+    no inner call could finish, so the property demands exactly one inner call per key in flight and that call's
+    result for every request of the key. The harness checked that per round; the first violating round is relayed
+    in full (threads, key, number of inner calls in flight together, what each thread received, one-line replay)."""
+    for _, m in meta:
+        if m.startswith("#herd-fail"):
+            return "simultaneous arrivals (real threads) violated the property: " + m[len("#herd-fail"):].strip()
+    return None
+
+
 def mon_share(case, lines, meta):
     """roles and results: a request arriving while a call for its key is in flight makes no inner call and
     gets exactly that call's result (same serial; `err:leader_cancelled` iff that leader was dropped or
@@ -514,6 +580,16 @@ def transitions(case, lines, meta=None):
             tags.append("arrival-during-leader-drop-led" if nx[:1] == ["inner_call"] else "arrival-during-leader-drop-joined")
     if any(o.startswith("manual ondrop") and "thread=1" in o for o in case["ops"]):
         tags.append("ondrop-second-thread")
+    for _, m in (meta or []):
+        if m.startswith("#herd "):
+            kv = kvs(m)
+            tags.append("herd-run")
+            tags.append("herd-gate-%s" % kv.get("gate", "none"))
+            if kv.get("gate") == "hash" and kv.get("ballast") == "1":
+                # the rendezvous inside the look-up: everybody met (look-up admits several threads) or somebody gave up
+                tags.append("herd-lookup-exclusive" if int(kv.get("gate_timeouts", "0")) > 0 else "herd-lookup-shared")
+            if int(kv.get("keys", "1")) > 1:
+                tags.append("herd-several-keys")
     for l in lines:
         _, w = tparse(l)
         if not w:
@@ -539,7 +615,7 @@ def transitions(case, lines, meta=None):
 
 
 def nontrivial(case, lines, tags):
-    return any(t.startswith("waiter-") or t in ("leader-dropped", "leader-panic", "call-panic") for t in tags)
+    return any(t.startswith("waiter-") or t in ("leader-dropped", "leader-panic", "call-panic", "herd-run") for t in tags)
 
 
 LEVEL_NOTE = ("Trusted: Lean kernel; the transcription of tokio's broadcast channel (a value sent before the sender is dropped stays "
@@ -553,7 +629,11 @@ LEVEL_NOTE = ("Trusted: Lean kernel; the transcription of tokio's broadcast chan
               "`Drop for CoalesceFuture` unregisters the key before the inner future is destroyed, so a request arriving while that "
               "destructor runs (another thread, or the destructor itself) leads a second inner call while the abandoned one still exists; "
               "shown deterministically by corpus/coalesce/leader_drop_reentrant.ops, reported by c11-drop-overlap; the model specifies the "
-              "conforming behaviour (the request joins the dying leader), proposed repair notes/strengthen-C11-proposed-repair.diff.")
+              "conforming behaviour (the request joins the dying leader), proposed repair notes/strengthen-C11-proposed-repair.diff. "
+              "Parallel callers: the model's unit of atomicity is one Service::call (look-up + registration under one lock) and one poll; that "
+              "assumption is not proved, it is probed by the `manual herd` cases — a bounded search over real OS-thread schedules (with a timed "
+              "rendezvous inside call() through the key type's Clone/Hash), exact oracles, no tolerance; a clean run is evidence only "
+              "(notes/strengthen-C11-w3m2.md).")
 
 SPECS = {
     "C11": {
@@ -561,17 +641,18 @@ SPECS = {
         "module": "TR.Props.C11",
         "gen": gen,
         "corpus_filter": lambda c: REENTRANT_DROP or not any(o.startswith("manual ondrop") for o in c["ops"]),
-        "monitors": [("c11-drop-overlap", mon_drop_overlap), ("c11-one-inflight-per-key", mon_inflight), ("c11-shared-result", mon_share), ("c11-prompt", mon_prompt)],
+        "monitors": [("c11-drop-overlap", mon_drop_overlap), ("c11-simultaneous-arrivals", mon_herd), ("c11-one-inflight-per-key", mon_inflight), ("c11-shared-result", mon_share), ("c11-prompt", mon_prompt)],
         "transitions": transitions,
         "nontrivial": nontrivial,
         "all_transitions": ["lead", "lead-again", "leader-ok", "leader-err", "leader-panic", "leader-dropped",
                             "waiter-ok", "waiter-err", "waiter-cancelled", "call-panic", "noop",
                             "dropsvc-first", "dropsvc-idle", "dropsvc-inflight", "waiter-served-after-dropsvc",
                             "waiter-cancelled-after-dropsvc", "refused-after-dropsvc",
-                            "arrival-during-leader-drop-joined", "ondrop-second-thread"],
+                            "arrival-during-leader-drop-joined", "ondrop-second-thread",
+                            "herd-run", "herd-gate-none", "herd-gate-clone", "herd-gate-hash", "herd-lookup-exclusive", "herd-several-keys"],
         "canon": canon,
-        "model_modules": ["TR.Model.Coalesce", "TR.Lemmas.Coalesce", "TR.Lemmas.CoalesceHandle"],
-        "lean_files": ["TR.Model.Coalesce", "TR.Lemmas.Coalesce", "TR.Lemmas.CoalesceHandle"],
+        "model_modules": ["TR.Model.Coalesce", "TR.Lemmas.Coalesce", "TR.Lemmas.CoalesceHandle", "TR.Lemmas.CoalesceHerd"],
+        "lean_files": ["TR.Model.Coalesce", "TR.Lemmas.Coalesce", "TR.Lemmas.CoalesceHandle", "TR.Lemmas.CoalesceHerd"],
         "sizes": (600, 30000),
         "rule": "seeded random op sequences (arrive key=../poll/drop/adv/settle) over 1..3 keys and 1..12 requests, 70% of them on one key, "
                 "inner latencies 0..40 ms with ok/err/panic/never, 12% of the arrivals with an inner call() that itself panics, advances biased to completion-1/completion/completion+1, leader and waiter "
@@ -579,11 +660,19 @@ SPECS = {
                 "per key; in 38% of the cases the last service handle is dropped (`manual dropsvc`: before anybody arrives / as soon as a "
                 "leader has waiters in flight / at any step / after the tail / at the very end; later arrivals must be refused); 45% of the "
                 "leader drops (6% of the others) have a request for the same key arriving while the dropped leader's inner future is being "
-                "destroyed (`manual ondrop`, half of them on a second OS thread); "
+                "destroyed (`manual ondrop`, half of them on a second OS thread); about 2% (quick) / 0.6% (thorough) of the cases are "
+                "real-thread searches for non-atomic leader election (`manual herd`: 2..16 threads released together call the service for "
+                "1..N keys while no inner call can finish, 4..6000 rounds (x4 in the thorough tier), one run at a time on the machine, rendezvous inside call() through the "
+                "key type's Clone / Hash or none; oracle: one inner call per key in flight, everybody gets its result); "
                 "distinct = distinct implementation event log; non-trivial = some waiter resolved, or a leader was dropped or panicked",
         "trusted": ["tokio broadcast / parking_lot Mutex / unwinding semantics as transcribed in TR.Model.Coalesce (sampled by the correspondence check)",
-                    "harness: clock_gettime interposition, manual poller, scripted inner service", "python diff/monitors"],
-        "assumptions": ["one poll of one call future, and one Service::call, is atomic (single-threaded runtime; the map is behind a mutex)",
+                    "harness: clock_gettime interposition, manual poller, scripted inner service", "python diff/monitors",
+                    "parking_lot::Mutex gives mutual exclusion over look-up + registration (the model's atomic `call()` step); probed, not "
+                    "proved, by the real-thread search `manual herd`"],
+        "assumptions": ["one poll of one call future, and one Service::call, is atomic (single-threaded runtime; the map is behind a mutex): leader "
+                        "election = look-up + registration under ONE lock. Every theorem about requests on several threads goes through this "
+                        "assumption; the `manual herd` cases search real schedules for an execution that breaks it (sampling, not proof; "
+                        "deterministic only for code whose look-up admits several threads at once)",
                         "keys and ids modelled as unbounded Nat",
                         "a request arriving while a dropped leader's inner future is being destroyed is specified as arriving before the drop "
                         "(TR.Coalesce.dropOps, theorem request_during_leader_teardown); the pure model has no such intermediate state"],
@@ -593,7 +682,7 @@ SPECS = {
                       "completed_leader_waiter_resolves, key_free_again, fresh_call_when_free, no_eternal_wait, "
                       "waiter_resolves_once_leader_gone, waiter_always_rearmed, handle_drop_only_stops_arrivals, handle_drop_preserves_outcomes, "
                       "handle_drop_time_irrelevant, handle_drop_unobservable, waiters_outlive_the_handle, request_during_leader_teardown, "
-                      "dropOps_spec}: for every operation sequence over any key space (all arrival, "
+                      "dropOps_spec, simultaneous_arrivals_one_leader}: for every operation sequence over any key space (all arrival, "
                       "completion, cancellation instants, all poll orders, ok/err/panic/never, panics inside inner.call() as well as in its "
                       "future) at most one inner call per key is in flight in every prefix of the log; a key is registered exactly while a "
                       "leader of it is alive; a request that finds its key registered makes no inner call and resolves only with its own "
